@@ -41,6 +41,65 @@ impl<'a> ActionContext for &Cx<'a> {
     fn patch(&self) -> Graph { self.g.new_patch() }
 }
 
+/// one notification through the real Router::run loop while `live_clones - 1` request workers are still alive
+/// (a worker is a thread holding a clone of the router until it has responded; holding the clone is all that matters)
+fn run_router(op: &Value) -> Value {
+    use iwes::router::{LspClient, Router, ServerConfig};
+    use lsp_server::{Message, Notification, Request, RequestId};
+    let (to_client_tx, to_client_rx) = crossbeam_channel::unbounded::<Message>();
+    let (to_server_tx, to_server_rx) = crossbeam_channel::unbounded::<Message>();
+    let mut state = HashMap::new();
+    state.insert("a".to_string(), "# T1\n\nT2\n".to_string());
+    state.insert("b".to_string(), "T3\n".to_string());
+    let router = Router::new(to_client_tx, ServerConfig {
+        base_path: "/basepath".to_string(),
+        state,
+        sequential_ids: Some(false),
+        configuration: Default::default(),
+        lsp_client: LspClient::Unknown,
+    });
+    let n = op["live_clones"].as_u64().unwrap_or(1);
+    // each in-flight request worker holds a clone for a while, then finishes
+    let workers: Vec<std::thread::JoinHandle<()>> = (1..n)
+        .map(|_| {
+            let held = router.clone();
+            std::thread::spawn(move || {
+                std::thread::sleep(std::time::Duration::from_millis(300));
+                drop(held);
+            })
+        })
+        .collect();
+    let key = op["key"].as_str().unwrap();
+    let uri = format!("file:///basepath/{}.md", key);
+    let kind = op["kind"].as_str().unwrap();
+    let note = match kind {
+        "didChange" => Some(Notification { method: "textDocument/didChange".into(), params: json!({"textDocument": {"uri": uri, "version": 2}, "contentChanges": [{"text": "NEWTEXT one\n\nNEWTEXT two\n"}]}) }),
+        "didSave+text" => Some(Notification { method: "textDocument/didSave".into(), params: json!({"textDocument": {"uri": uri}, "text": "NEWTEXT one\n\nNEWTEXT two\n"}) }),
+        "didSave" => Some(Notification { method: "textDocument/didSave".into(), params: json!({"textDocument": {"uri": uri}}) }),
+        "other" => Some(Notification { method: "$/setTrace".into(), params: json!({"value": "off"}) }),
+        _ => None,
+    };
+    if let Some(nf) = note {
+        to_server_tx.send(Message::Notification(nf)).unwrap();
+    }
+    to_server_tx.send(Message::Request(Request { id: RequestId::from(1), method: "textDocument/formatting".into(),
+        params: json!({"textDocument": {"uri": uri}, "options": {"tabSize": 2, "insertSpaces": true}}) })).unwrap();
+    let h = std::thread::spawn(move || { let _ = router.run(to_server_rx); });
+    let resp = to_client_rx.recv_timeout(std::time::Duration::from_secs(15));
+    let _ = to_server_tx.send(Message::Notification(Notification { method: "exit".into(), params: json!(null) }));
+    let _ = h.join();
+    for w in workers {
+        let _ = w.join();
+    }
+    match resp {
+        Ok(Message::Response(r)) => {
+            let text = r.result.map(|v| v.to_string()).unwrap_or_default();
+            json!({"applied": text.contains("NEWTEXT"), "answer": text.chars().take(200).collect::<String>()})
+        }
+        other => json!({"applied": false, "answer": format!("{:?}", other.map(|_| "non-response"))}),
+    }
+}
+
 /// drive the real request handlers of iwes::router::server::Server
 fn run_server(op: &Value) -> Value {
     use iwes::router::server::Server;
@@ -446,6 +505,7 @@ fn run_op(st: &mut St, op: &Value) -> Value {
         }
         "arena" => arena_json(gr(st)),
         "server" => run_server(op),
+        "router_notification" => run_router(op),
         "action" => run_action(gr(st), op["provider"].as_str().unwrap(), op["target"].as_u64().unwrap()),
         "keys" => {
             let mut m = serde_json::Map::new();
